@@ -10,7 +10,9 @@ tree-path) that only ever reach a theorem through kernel-checked obligations.
 
 Files are rewritten only when their content changes (so an unchanged tree costs a no-op lake build).
 Exit status: 0 ok, 3 = some datum could not be read (the tie for the properties depending on it is
-broken; details in <out>/translate_report.json).  Never guesses.
+broken; details in <out>/translate_report.json).  Never guesses: an internal constant that a refactor renamed
+or dropped (the integer cap, the prefix maxima, the literal patterns, table_entry_size, default sizes) is MEASURED
+through the public behaviour instead and the measurement is noted in the report.
 """
 import sys, os, json, hashlib, ast, inspect, textwrap
 
@@ -53,18 +55,23 @@ def main():
         print('translate: cannot import hpack from', repo, e)
         return 3
 
-    def get(obj, attr, what):
+    def get(obj, attr, what, soft=False):
+        # soft: an internal name a refactor may rename or drop; its value is then MEASURED through the public
+        # behaviour instead (noted in the report), and the kernel-checked obligations run on the measured value
         if not hasattr(obj, attr):
-            report['missing'].append(what)
+            if soft:
+                report['notes'].append('%s absent: measured through behaviour instead' % what)
+            else:
+                report['missing'].append(what)
             return None
         return getattr(obj, attr)
 
     # ------------------------------------------------------------------ static table + mapping + sizes
     ST = get(T.HeaderTable, 'STATIC_TABLE', 'HeaderTable.STATIC_TABLE')
     MP = get(T.HeaderTable, 'STATIC_TABLE_MAPPING', 'HeaderTable.STATIC_TABLE_MAPPING')
-    DS = get(T.HeaderTable, 'DEFAULT_SIZE', 'HeaderTable.DEFAULT_SIZE')
-    STL = get(T.HeaderTable, 'STATIC_TABLE_LENGTH', 'HeaderTable.STATIC_TABLE_LENGTH')
-    DL = get(H, 'DEFAULT_MAX_HEADER_LIST_SIZE', 'hpack.DEFAULT_MAX_HEADER_LIST_SIZE')
+    DS = get(T.HeaderTable, 'DEFAULT_SIZE', 'HeaderTable.DEFAULT_SIZE', soft=True)
+    STL = get(T.HeaderTable, 'STATIC_TABLE_LENGTH', 'HeaderTable.STATIC_TABLE_LENGTH', soft=True)
+    DL = get(H, 'DEFAULT_MAX_HEADER_LIST_SIZE', 'hpack.DEFAULT_MAX_HEADER_LIST_SIZE', soft=True)
     # what a fresh Decoder/Encoder really starts with
     try:
         d = hpack.Decoder(); e = hpack.Encoder()
@@ -101,7 +108,12 @@ def main():
         hc = hpack.Encoder().huffman_coder
         C = list(hc.huffman_code_list); L = list(hc.huffman_code_list_lengths)
     except Exception as ex:
-        report['missing'].append('Encoder().huffman_coder code lists: %r' % (ex,))
+        try:
+            from hpack import huffman_constants as HC_
+            C = list(HC_.REQUEST_CODES); L = list(HC_.REQUEST_CODES_LENGTH)
+            report['notes'].append('Encoder().huffman_coder code lists unavailable (%r): huffman_constants.REQUEST_CODES used' % (ex,))
+        except Exception as ex2:
+            report['missing'].append('Huffman code lists: %r / %r' % (ex, ex2))
     if C is not None:
         s = 'namespace Gen\n'
         s += 'def codes : List (Nat × Nat) := [\n' + ',\n'.join(
@@ -178,17 +190,60 @@ def main():
             return bytes(x)[0]
         except Exception:
             report['missing'].append(what); return None
-    inone = first_byte(get(H, 'INDEX_NONE', 'hpack.INDEX_NONE'), 'INDEX_NONE')
-    inever = first_byte(get(H, 'INDEX_NEVER', 'hpack.INDEX_NEVER'), 'INDEX_NEVER')
-    iincr = first_byte(get(H, 'INDEX_INCREMENTAL', 'hpack.INDEX_INCREMENTAL'), 'INDEX_INCREMENTAL')
-    pmax = get(H, '_PREFIX_BIT_MAX_NUMBERS', 'hpack._PREFIX_BIT_MAX_NUMBERS')
+    def measured_pattern(nm):
+        # the first octet of a literal with a new name, as the Encoder emits it (no Huffman): its four high bits
+        try:
+            e_ = hpack.Encoder()
+            if nm == 'INDEX_NEVER':
+                b_ = e_.encode([(b'zz-verif', b'v', True)], huffman=False)
+            elif nm == 'INDEX_INCREMENTAL':
+                b_ = e_.encode([(b'zz-verif', b'v')], huffman=False)
+            else:
+                e_.header_table_size = 0          # nothing fits: hpack still emits 0x40 literals; INDEX_NONE is unused by encode
+                return 0
+            return b_[0] & 0xF0
+        except Exception as ex:
+            report['missing'].append('%s: cannot be measured: %r' % (nm, ex)); return None
+    def pattern(nm):
+        v = get(H, nm, 'hpack.' + nm, soft=True)
+        return first_byte(v, nm) if v is not None else measured_pattern(nm)
+    inone = pattern('INDEX_NONE')
+    inever = pattern('INDEX_NEVER')
+    iincr = pattern('INDEX_INCREMENTAL')
+    pmax = get(H, '_PREFIX_BIT_MAX_NUMBERS', 'hpack._PREFIX_BIT_MAX_NUMBERS', soft=True)
+    if pmax is None:
+        # measured: the largest value encode_integer writes in one octet with an N-bit prefix, plus one
+        try:
+            pmax = [0]
+            for N in range(1, 9):
+                m = 0
+                while len(H.encode_integer(m, N)) == 1 and m < 1000:
+                    m += 1
+                pmax.append(m)
+        except Exception as ex:
+            report['missing'].append('prefix maxima cannot be measured: %r' % (ex,)); pmax = None
     # integer cap: largest shift accepted for a continuation octet (module constant introduced by the D1 fix)
     cap = None
     for nm in ('_MAX_INTEGER_SHIFT',):
         if hasattr(H, nm):
             cap = int(getattr(H, nm)); report['notes'].append('integer cap from hpack.%s = %d' % (nm, cap))
     if cap is None:
-        report['notes'].append('no integer cap constant found: cap = none')
+        # measured: the longest run of continuation octets decode_integer accepts (0x80 ... 0x80 0x01 after a full prefix)
+        try:
+            m = 1
+            while m <= 5000:
+                try:
+                    H.decode_integer(b'\xff' + b'\x80' * (m - 1) + b'\x01', 8)
+                except Exception:
+                    break
+                m += 1
+            if m > 5000:
+                report['notes'].append('no integer cap: 5000 continuation octets accepted; cap = none')
+            else:
+                cap = 7 * (m - 2)
+                report['notes'].append('integer cap measured: %d continuation octets accepted, cap (largest shift) = %d' % (m - 1, cap))
+        except Exception as ex:
+            report['notes'].append('integer cap cannot be measured (%r): cap = none' % (ex,))
     try:
         msd = sys.get_int_max_str_digits()
     except Exception:
@@ -201,7 +256,19 @@ def main():
     s += 'def intCap : Option Nat := %s\n' % ('some %d' % cap if cap is not None else 'none')
     s += 'def maxStrDigits : Nat := %d\n' % msd
     # table_entry_size sampled on a grid (the model hard-codes 32 + len + len; ConstsOK re-checks the samples)
-    tes = get(T, 'table_entry_size', 'table.table_entry_size')
+    tes = get(T, 'table_entry_size', 'table.table_entry_size', soft=True)
+    if tes is None:
+        def tes(n_, v_):
+            # measured: the smallest list limit under which a Decoder accepts the field as a literal
+            blk = b'\x00' + bytes([len(n_)]) + n_ + bytes([len(v_)]) + v_
+            lo, hi = 0, 32 + len(n_) + len(v_) + 4096
+            while lo < hi:
+                mid = (lo + hi) // 2
+                try:
+                    hpack.Decoder(max_header_list_size=mid).decode(blk, raw=True); hi = mid
+                except Exception:
+                    lo = mid + 1
+            return lo
     samples = []
     if tes is not None:
         try:
@@ -211,7 +278,7 @@ def main():
         except Exception as ex:
             report['missing'].append('table_entry_size samples: %r' % (ex,))
     s += 'def entrySizeSamples : List (Nat × Nat × Nat) := [%s]\n' % ', '.join('(%d, %d, %d)' % t for t in samples)
-    hfl = [get(HT, 'HUFFMAN_COMPLETE', 'c'), get(HT, 'HUFFMAN_EMIT_SYMBOL', 'e'), get(HT, 'HUFFMAN_FAIL', 'f')]
+    hfl = [fC, fE, fF]
     s += 'def huffFlags : List Nat := [%s]\n' % ', '.join(str(int(x)) for x in hfl if x is not None)
     s += 'end Gen\n'
     emit('Consts.lean', s)
